@@ -54,7 +54,7 @@ const fn zmax(code: u8) -> usize {
 }
 
 macro_rules! c05_bodies {
-    ($e:ty, $buf:ident, $ub:ident, $defaults_r:ident, $defaults_w:ident) => {
+    ($e:ty, $buf:ident, $ub:ident, $defaults_r:ident, $defaults_w:ident, $u8scope:ident) => {
         pub fn $buf<W: VW + DoubleType, S: Src, const K: usize, const CODE: u8>(s: &mut S)
         where
             Bb<W>: VW,
@@ -78,6 +78,23 @@ macro_rules! c05_bodies {
             crate::cover!(s, adv <= 9, "codeword inside the table");
             crate::cover!(s, adv > 12, "codeword longer than the table index");
             crate::cover!(s, st.n < 9, "look-ahead must refill");
+        }
+        /// BufBitReader over u8 words: only if its construction does not emit the diagnostic for this table
+        pub fn $u8scope<S: Src, const CODE: u8>(s: &mut S)
+        where
+            Rd<$e, u8, 12>: RdOk<$e, u8, 12>,
+        {
+            let in_scope = match CODE {
+                T_GAMMA => crate::gen_scope::U8_GAMMA_IN_SCOPE,
+                T_ZETA3 => crate::gen_scope::U8_ZETA3_IN_SCOPE,
+                _ => crate::gen_scope::U8_DELTA_IN_SCOPE,
+            };
+            if !in_scope {
+                // exempt by the property (diagnostic emitted at construction)
+                crate::cover!(s, true, "reader exempt: diagnostic emitted");
+                return;
+            }
+            $buf::<u8, S, 12, CODE>(s);
         }
         pub fn $ub<S: Src, const K: usize, const CODE: u8>(s: &mut S)
         where
@@ -150,8 +167,8 @@ macro_rules! c05_bodies {
         }
     };
 }
-c05_bodies!(BE, table_decode_be, ub_table_decode_be, defaults_r_be, defaults_w_be);
-c05_bodies!(LE, table_decode_le, ub_table_decode_le, defaults_r_le, defaults_w_le);
+c05_bodies!(BE, table_decode_be, ub_table_decode_be, defaults_r_be, defaults_w_be, u8_scope_be);
+c05_bodies!(LE, table_decode_le, ub_table_decode_le, defaults_r_le, defaults_w_le, u8_scope_le);
 
 crate::harnesses! {
     #[kani::unwind(10)]
@@ -258,4 +275,16 @@ crate::harnesses! {
     c05_defaults_w_zeta3_le (thorough, "BufBitWriter<LE, Rec<u64>> parameterless write of zeta3", "any writer state, v<=2^64-2: same words/pending bits/length as the table-less variant") => defaults_w_le::<_, 2>;
     #[kani::unwind(4)]
     c05_defaults_w_zeta_k3_le (quick, "BufBitWriter<LE, Rec<u64>> parameterless write of zeta_k3", "any writer state, v<=2^64-2: same words/pending bits/length as the table-less variant") => defaults_w_le::<_, 3>;
+    #[kani::unwind(14)]
+    c05_dec_gamma_u8_be (quick, "BufBitReader<BE, MemWordReader<u8>>, K=12", "checked only if constructing this reader does not emit the diagnostic for this table (decided natively by bin diag_dump on the tree under test)") => u8_scope_be::<_, {T_GAMMA}>;
+    #[kani::unwind(14)]
+    c05_dec_gamma_u8_le (quick, "BufBitReader<LE, MemWordReader<u8>>, K=12", "checked only if constructing this reader does not emit the diagnostic for this table (decided natively by bin diag_dump on the tree under test)") => u8_scope_le::<_, {T_GAMMA}>;
+    #[kani::unwind(14)]
+    c05_dec_delta_tt_u8_be (quick, "BufBitReader<BE, MemWordReader<u8>>, K=12", "checked only if constructing this reader does not emit the diagnostic for this table (decided natively by bin diag_dump on the tree under test)") => u8_scope_be::<_, {T_DELTA_TT}>;
+    #[kani::unwind(14)]
+    c05_dec_delta_tt_u8_le (quick, "BufBitReader<LE, MemWordReader<u8>>, K=12", "checked only if constructing this reader does not emit the diagnostic for this table (decided natively by bin diag_dump on the tree under test)") => u8_scope_le::<_, {T_DELTA_TT}>;
+    #[kani::unwind(14)]
+    c05_dec_zeta3_u8_be (quick, "BufBitReader<BE, MemWordReader<u8>>, K=12", "checked only if constructing this reader does not emit the diagnostic for this table (decided natively by bin diag_dump on the tree under test)") => u8_scope_be::<_, {T_ZETA3}>;
+    #[kani::unwind(14)]
+    c05_dec_zeta3_u8_le (quick, "BufBitReader<LE, MemWordReader<u8>>, K=12", "checked only if constructing this reader does not emit the diagnostic for this table (decided natively by bin diag_dump on the tree under test)") => u8_scope_le::<_, {T_ZETA3}>;
 }
